@@ -60,6 +60,13 @@ class CodecHooks(PatHooks):
             return App('b58?', v, prefix)
         if isinstance(callee, FuncRef) and callee.fi is not None and callee.fi.qualname == f'{ENC}.base58_decode':
             return App('call:base58_decode', *args)
+        if isinstance(callee, FuncRef) and callee.fi is not None and callee.fi.name == 'unforge_micheline':
+            # free bytes may or may not be a complete Micheline node: both outcomes (a decoded expression / a rejection)
+            if it.choose(2) == 0:
+                return Sym('micheline-expression')
+            raise Raised(ExcVal('ValueError', ('not a Micheline node',)))
+        if isinstance(callee, FuncRef) and callee.fi is not None and callee.fi.name == 'micheline_value_to_python_object' and args and isinstance(args[0], Sym):
+            return App('python-object-of', args[0])
         if isinstance(callee, ModRef) and callee.name == 'base58.b58decode_check' and args and isinstance(args[0], Sym):
             row = self.row_for_value()
             return Pat.const(row[2]) + Pat.free('H', row[3])
